@@ -87,6 +87,32 @@ Proof.
 Qed.
 Print Assumptions C13_tailcall_without_close_refuted.
 
+(* ERROR UNWINDING.  Thread.rethrow discards call frames one by one with restoreLastFrame (operation OUnwind:
+   the upvalues at or above the POPPED frame's base are closed, the caller's are untouched) and pushes stack
+   trace and error in the catching frame.  OUnwind is an operation of the machine, so C13_refines covers every
+   sequence containing it.  The discipline is necessary (3): a machine that restores the caller's registers
+   first and closes from the CALLER's frame pointer (`run_caller_close`) closes the still-in-scope captured
+   locals of the catching frame - on a D-respecting trace on which the real machine agrees with the spec, the
+   closure keeps reading its stale private copy after the frame wrote the variable. *)
+Theorem C13_unwind_close_from_caller_refuted :
+  exists l, D init_sst l = true /\ fits_run (init_st 1000 16) l = true /\ In OUnwind l /\
+            out (run (init_st 1000 16) l) = sout (srun init_sst l) /\
+            out (run_caller_close (init_st 1000 16) l) <> sout (srun init_sst l).
+Proof.
+  exists unwind_witness. destruct unwind_close_from_caller as [H1 [H2 [H3 [H4 H5]]]].
+  split; [exact H1|]. split; [exact H2|]. split; [cbn; tauto|]. split; [rewrite H3, H4; reflexivity|].
+  rewrite H5, H4. discriminate.
+Qed.
+Print Assumptions C13_unwind_close_from_caller_refuted.
+
+(* the error crosses two frames: the intermediate frame's captured local is closed with its last value, the
+   catching frame's stays shared (concrete instance of C13_refines; the caller-closing machine differs) *)
+Example C13_unwind_nonvacuous :
+  D init_sst unwind_witness2 = true /\
+  out (run (init_st 1000 16) unwind_witness2) = [60; 9] /\ sout (srun init_sst unwind_witness2) = [60; 9] /\
+  out (run_caller_close (init_st 1000 16) unwind_witness2) = [60; 3].
+Proof. destruct unwind_two_frames as [H1 [_ [H3 [H4 H5]]]]. repeat split; assumption. Qed.
+
 (* after the defining frame returned, reads and writes through the closures act on the
    variable's own cell (concrete instance, both machines agree with the expected values) *)
 Example C13_after_return_nonvacuous :
